@@ -174,6 +174,24 @@ def rule_loops(ctx):
                                 const_bound = True
                     if b in ('n_lag',):
                         const_bound = True
+            if not const_bound:
+                # counted loop in any spelling: a conjunct `v < B` with v an integer counter that the loop only increments
+                # and B a compile-time constant after resolving locals
+                from . import extents
+                L_ = extents.lets(fn)
+                conj = [c_.strip('()') for c_ in re.split(r'&&', cond.strip('()'))] if cond else []
+                for c_ in conj:
+                    m2 = re.match(r'^(\w+)(<|<=)(\w+|\d+)$', c_.replace('(', '').replace(')', ''))
+                    if not m2:
+                        continue
+                    v_, b_ = m2.group(1), m2.group(3)
+                    bound_txt = extents.canon(extents.resolve(b_, L_))
+                    if not (re.match(r'^\d+$', bound_txt) or bound_txt in ('n_lag',)):
+                        continue
+                    incs = [x for x in walk(loop) if x.get('kind') == 'UnaryOperator' and x.get('opcode') == '++' and render(x['inner'][0]) == v_]
+                    others = [x for x in walk(body_) if is_assign(x) and render(x['inner'][0]) == v_ and not (x['opcode'] == '+=' and render(x['inner'][1]) == '1')]
+                    if incs and not others:
+                        const_bound = True
             if const_bound:
                 samples.append('%s: %s (constant bound)' % (where, cond))
                 continue
